@@ -117,8 +117,37 @@ def wrap_m(t):
                 dtor=None)
 
 
-def gen(rng):
-    """-> (source text, fns, classes-for-the-model)"""
+KEY_SRC = """class Key {
+  public int id;
+  public constructor(int id) -> Key { this.id = id; }
+  public function show() -> string { return "key#" + this.id; }
+}
+"""
+HOLDER_SRC = """class Holder {
+  public Key current;
+  public constructor(Key k) -> Holder { this.current = k; }
+  public function getKey() -> Key { return this.current; }
+  public function describe() -> string { return "holding " + this.current.show(); }
+}
+"""
+
+
+def key_m():
+    return dict(name="Key", base=None, fields=[(False, False, "int", "id", None)],
+                ctors=[([("int", "id")], None, [("expr", ("fset", T_, "id", V("id")))], False)],
+                meths=[("show", [], "str", [("ret", ("bin", "+", S("key#"), ("fld", T_, "id")))], False, "")], dtor=None)
+
+
+def holder_m():
+    return dict(name="Holder", base=None, fields=[(False, False, ("cls", "Key"), "current", None)],
+                ctors=[([(("cls", "Key"), "k")], None, [("expr", ("fset", T_, "current", V("k")))], False)],
+                meths=[("getKey", [], ("cls", "Key"), [("ret", ("fld", T_, "current"))], False, ""),
+                       ("describe", [], "str", [("ret", ("bin", "+", S("holding "), ("mcall", ("fld", T_, "current"), "show", [])))], False, "")],
+                dtor=None)
+
+
+def gen(rng, chunks=False):
+    """-> (source text, fns, classes-for-the-model); chunks=True returns the source as a list of top-level declarations"""
     types = ["int", "long", "float", "str", "bool"]
     need = {}          # model classes by name
 
@@ -181,9 +210,21 @@ def gen(rng):
             x = fresh("w")
             body.append(("decl", False, ("cls", cls("Wrap", t)), x, ("new", cls("Wrap", t), [lit(rng, t)])))
             body.append(("echo", ("mcall", V(x), "twice", [])))
+    # ordinary classes next to the templates; sometimes a template's type parameter is spelled like one of them
+    # (it shadows the class inside the template only)
+    body.insert(0, ("decl", False, ("cls", "Key"), "k0", ("new", "Key", [I(rng.randint(1, 9))])))
+    body.insert(1, ("decl", False, ("cls", "Holder"), "hd", ("new", "Holder", [V("k0")])))
+    body.insert(2, ("echo", ("mcall", V("hd"), "describe", [])))
+    body.insert(3, ("echo", ("mcall", ("mcall", V("hd"), "getKey", []), "show", [])))
+    need["Key"] = key_m()
+    need["Holder"] = holder_m()
     body.append(("echo", S("end")))
     fns = [("main", "void", [], body)]
     classes = list(need.values())
-    # bases before derived is not required by either side; keep Cell first for readability
-    src = CELL_SRC + LABELED_SRC + ENTRY_SRC + WRAP_SRC + "\n" + lg.fn_src(fns[0])
-    return src, fns, classes
+    wrap_src = WRAP_SRC
+    if rng.random() < 0.5:
+        wrap_src = WRAP_SRC.replace("Wrap<T>", "Wrap<Key>").replace("Cell<T>", "Cell<Key>").replace("(T v)", "(Key v)")
+    parts = [CELL_SRC, LABELED_SRC, ENTRY_SRC, wrap_src, KEY_SRC, HOLDER_SRC, lg.fn_src(fns[0])]
+    if chunks:
+        return parts, fns, classes
+    return "\n".join(parts), fns, classes
